@@ -19,6 +19,11 @@ CLAIMED.update({
    technique="runtime crash monitor: recover() around every boundary call plus a parent-process classifier of worker deaths (panic on a script goroutine, fatal error), over token soup, grammar-wild templates crossed with every value kind, corpus mutation and mutated generated programs",
    text="Each run executes tens of thousands (thorough: 1.5M) of PRNG-determined scripts through vm.ExecuteContext with Debug=false in an environment holding one value of every constructible kind plus Go functions over such values (typed, variadic, multi-result, error-returning, panicking with error/string/arbitrary values, callbacks); every input is written to the in-flight file before it runs so a process death is attributed to it; every input that ever crashed the pinned tree is replayed first. Held = no Go panic reached the caller and no worker died outside the excluded classes.",
    note="Trusted: the crash classifier's reading of the runtime's fatal-error text for the excluded classes (stack/memory exhaustion, concurrent map access between script goroutines). Not generated: allocation sizes between 10^4 and 2^48, range() over huge spans, self-referential containers passed to formatting, packages tables (import cannot reach os.Exit/exec)."),
+ "C18": dict(
+   cat="exploration", ref="DESIGN.md section 3, C18",
+   technique="runtime differential monitor at process level: the anko binary built from /repo is run on every script (file mode with trailing arguments and -e mode) next to a library driver executing vm.Execute on the same source in an equally prepared environment; stdout, diagnostic line and exit status are compared",
+   text="53 fixed scripts and PRNG template programs (unchanged, with a parse error injected at a random token, with a run error injected after k prints, reading args, importing bundled packages, unreadable paths); required: CLI stdout = library stdout plus exactly one diagnostic line iff the library returned an error; exit 0 iff no error, 4 on parse/run error, 2 for an unreadable file; args as seen by the script.",
+   note="Trusted: the library driver in a child process of the worker as reference. Not judged: stderr, the diagnostic's wording, interactive mode, -e \"\"; a mismatch must reproduce on a second run of both sides, else it is inconclusive."),
  "C19": dict(
    cat="exploration", ref="DESIGN.md section 3, C19",
    technique="runtime differential monitor of the core builtins against native Go (math/big progression for range, reflect/strconv/fmt for the others) plus an exhaustive structural invariant over the live package tables (runtime.FuncForPC name / reflect type identity per entry)",
@@ -59,6 +64,16 @@ CLAIMED.update({
    technique="offline checker of recorded probe traces against an executable reference model (error propagation to the nearest try, per-invocation LIFO defer list), over PRNG-generated try/catch/finally/defer programs",
    text="Generated programs (error profile: nested try/catch/finally in nested functions, 0-5 defers per invocation in branches and loops, deferred host functions/closures/variadic and spread callees, failing deferred callees, throw/runtime error/return at every point) run on the real interpreter; every deferred call is observed with the arguments it received; trace, result and error class must be admitted by a model variant.",
    note="Trusted: internal/refmodel. Open readings accepted both ways: try/catch/finally scope sharing, finally after abrupt exits, which of several failing defers surfaces. Runtime error texts are opaque (only occurrence and position)."),
+ "C10": dict(
+   cat="exploration", ref="DESIGN.md section 3, C10",
+   technique="history + executable model: every operation of a generated history is executed as its own vm.Execute call and, in parallel, on native Go slices/maps/strings/struct values (reflect); after every operation contents, length, capacity relation and aliasing of every container variable are compared",
+   text="An exhaustive phase crosses a 15-value index universe (negative, 0, in range, len, len+1, +-2^40, non-numeric string, nil, slice, map) with read/write/slice(2,3)/call variants on untyped and typed slices and strings, and 16 keys with read/write/delete/member on untyped and typed maps; random histories of 10-40 operations (6000 quick / 150000 thorough) add append forms, aliasing through assignment, slicing and calls, struct fields of every basic and container type. An error must leave every container unchanged (deep comparison with the snapshot taken before).",
+   note="Trusted: Go's own slices/maps/strings as the model; capacity after a growing append is adopted from the live object (unspecified by Go). Excluded: numeric-string/float/bool indices, reslice high bound in (len,cap], struct value copy-vs-alias, in on maps/strings, multi-byte string stores."),
+ "C20": dict(
+   cat="exploration", ref="DESIGN.md section 3, C20",
+   technique="runtime metamorphic monitor: every operation template is instantiated with its operand supplied through each provenance (variable, element, map entry, member, struct field, script call, Go call returning interface{}, parentheses, ternary, ??, parameter, var, channel receive, module member, multi-result) and must agree with the plain-variable instantiation in outcome class, value, dynamic type, identity and side effects",
+   text="203 operation templates x 27 operand kinds x 21 provenance atoms: every (template, value, atom) is enumerated completely each run; chains of length 2-3 are PRNG-sampled (thorough: all length-2 chains); each instantiation runs in a fresh environment with fresh operand objects; effects are observed from Go after the run.",
+   note="Trusted: the variable instantiation as reference (so a defect that affects all provenances alike is out of this check's reach — other properties cover those). Excluded: a,b = <index expr> (comma-ok statement by grammar), &X, the value of X++ / X op= e, stores needing an assignable target, struct value field stores through boxing provenances."),
  "C12": dict(
    cat="exploration", ref="DESIGN.md section 3, C12",
    technique="history + executable model: every env API call of generated and exhaustively enumerated histories is applied to the real package and to a chain-of-dictionaries model; results and the complete observable state of every live scope are compared after every call",
